@@ -247,6 +247,63 @@ static void check_accessors(const struct nodeval *n, int as_uint)
 		else
 			ed = sd;
 		eb = n->slen != 0;
+		/* the text-to-number helpers called directly: return code, value, errno */
+		{
+			int conv = str_to_i128(n->s, &v, &neg);
+			int64_t r64 = 0x5a5a5a5a;
+			uint64_t ru = 0x5a5a5a5a;
+			double rd = 0;
+			MC_COUNT("calls", 3);
+			mc_phase = "json_parse_int64";
+			errno = 0;
+			int rc = json_parse_int64(n->s, &r64);
+			int en = errno;
+			if (conv)
+			{
+				struct exp_i x = clamp_to(v, I64MIN, I64MAX);
+				if (rc != 0)
+					mc_violation("parse-helper-refuses-number", "json_parse_int64 returned %d for a convertible text", rc);
+				else if ((i128)r64 != x.val)
+					mc_violation("wrong-value", "json_parse_int64 stored %lld", (long long)r64);
+				else if (x.err == ERANGE && en != ERANGE)
+					mc_violation("wrong-errno", "json_parse_int64: saturated but errno is %d, documented ERANGE", en);
+				else if (x.err == 0 && en != 0)
+					mc_violation("wrong-errno", "json_parse_int64: exact conversion but errno is %d", en);
+			}
+			else if (rc == 0)
+				mc_violation("parse-helper-accepts-non-number", "json_parse_int64 returned 0 for a text with no number (stored %lld)", (long long)r64);
+			else if (en != EINVAL)
+				mc_violation("wrong-errno", "json_parse_int64: failure with errno %d, expected EINVAL", en);
+			mc_phase = "json_parse_uint64";
+			errno = 0;
+			rc = json_parse_uint64(n->s, &ru);
+			en = errno;
+			if (conv && !neg)
+			{
+				struct exp_i x = clamp_to(v, 0, U64MAX);
+				if (rc != 0)
+					mc_violation("parse-helper-refuses-number", "json_parse_uint64 returned %d for a convertible text", rc);
+				else if ((i128)ru != x.val)
+					mc_violation("wrong-value", "json_parse_uint64 stored %llu", (unsigned long long)ru);
+				else if (x.err == ERANGE && en != ERANGE)
+					mc_violation("wrong-errno", "json_parse_uint64: saturated but errno is %d, expected ERANGE", en);
+			}
+			else if (rc == 0)
+				mc_violation("parse-helper-accepts-non-number", "json_parse_uint64 returned 0 for a %s text (stored %llu)", conv ? "negative" : "non-numeric", (unsigned long long)ru);
+			else if (en != EINVAL)
+				mc_violation("wrong-errno", "json_parse_uint64: failure with errno %d, expected EINVAL", en);
+			mc_phase = "json_parse_double";
+			rc = json_parse_double(n->s, &rd);
+			{
+				char *e2;
+				double want = strtod(n->s, &e2);
+				if ((rc == 0) != (e2 != n->s))
+					mc_violation("wrong-value", "json_parse_double returned %d, strtod consumed %d bytes", rc, (int)(e2 - n->s));
+				else if (rc == 0 && !((rd != rd && want != want) || (rd == want && signbit(rd) == signbit(want))))
+					mc_violation("wrong-value", "json_parse_double stored %.17g, expected %.17g", rd, want);
+			}
+			mc_phase = "";
+		}
 		break;
 	}
 	}
